@@ -23,6 +23,11 @@ def norm_params(spec):
                 "LinReg": {"vdrop": 0.0, "ig": 0.0, "iis": 0.0, "rt": 0.0}, "PSwitch": {"rs": 0.0, "ig": 0.0, "iis": 0.0, "rt": 0.0},
                 "PMux": {"rs": 0.0, "ig": 0.0, "iis": 0.0, "rt": 0.0}, "Rectifier": {"vdrop": 0.0, "rs": 0.0, "ig": 0.0, "iq": 0.0, "rt": 0.0}}[cls]
     full = dict(defaults); full.update({k: v for k, v in a.items() if k != "limits"})
+    if cls == "LinReg" and "iq" in full:
+        # deprecated spelling of the ground current: a non-zero iq (scalar or table keyed 'iq') takes the place of ig
+        iq = full.pop("iq")
+        if isinstance(iq, dict): full["ig"] = {("ig" if k_ == "iq" else k_): v_ for k_, v_ in iq.items()}
+        elif iq != 0.0: full["ig"] = iq
     table = None
     for k, v in full.items():
         if isinstance(v, dict):
